@@ -279,6 +279,10 @@ fn flat_mb(c: usize) -> Mb {
 
 /// The closed alphabet of 3.4: pictures are 32x16, contents are flat, so the image space is finite.
 pub fn closed_world(sorenson: bool, trs: &[u8], contents: usize) -> World {
+    closed_world_opt(sorenson, trs, contents, true)
+}
+
+pub fn closed_world_opt(sorenson: bool, trs: &[u8], contents: usize, early_end: bool) -> World {
     let hdr = |ptype: u8, tr: u8| -> Hdr {
         if sorenson {
             Hdr::S(SHdr { version: 0, tr, size: SSize::auto(32, 16), ptype, deblock: false, q: 5, pei: vec![] })
@@ -297,6 +301,31 @@ pub fn closed_world(sorenson: bool, trs: &[u8], contents: usize) -> World {
                 ops.push(GOp::pic(&format!("Db(tr={tr},{c})"), Pic { hdr: hdr(2, tr), mbs: vec![Mb::NotCoded, flat_mb(c)] }));
             }
         }
+    }
+    // pictures that end early: header only (ending inside a byte, and - with six supplemental bytes
+    // in a Sorenson header - exactly on a byte boundary) and after the first macroblock; everything
+    // missing is taken from the reference picture
+    if early_end {
+        let tr = trs[0];
+        let with_pei = |h: Hdr, n: usize| -> Hdr {
+            match h {
+                Hdr::S(mut s) => {
+                    s.pei = (0..n).map(|k| 0x40 + k as u8).collect();
+                    Hdr::S(s)
+                }
+                Hdr::Std(mut s) => {
+                    s.pei = (0..n).map(|k| 0x40 + k as u8).collect();
+                    Hdr::Std(s)
+                }
+            }
+        };
+        for n in [0usize, 6] {
+            ops.push(GOp::pic(&format!("P-header-only(tr={tr},pei={n})"), Pic { hdr: with_pei(hdr(1, tr), n), mbs: vec![] }));
+            if sorenson {
+                ops.push(GOp::pic(&format!("D-header-only(tr={tr},pei={n})"), Pic { hdr: with_pei(hdr(2, tr), n), mbs: vec![] }));
+            }
+        }
+        ops.push(GOp::pic(&format!("P-first-macroblock-only(tr={tr})"), Pic { hdr: hdr(1, tr), mbs: vec![flat_mb(contents - 1)] }));
     }
     ops.extend(bad_inputs(sorenson));
     ops.push(GOp::Cleanup);
@@ -469,10 +498,11 @@ pub fn run(tier: Tier) -> Report {
         let depth = if tier.thorough() { 5 } else { 4 };
         let mut n = 0u64;
         for sorenson in [true, false] {
-            let w = closed_world(sorenson, &[0, 1], 2);
+            let w = closed_world_opt(sorenson, &[0, 1], 2, false);
             n += explore_histories(&w, &rep, "C04", depth);
         }
-        let w = closed_world(true, &[7], 2);
+        // one temporal reference, one content, with the early-ending pictures: one level deeper
+        let w = closed_world_opt(true, &[7], 1, true);
         n += explore_histories(&w, &rep, "C04", depth + 1);
         rep.add_transitions(n);
         rep.add_states(n / depth as u64);
